@@ -138,7 +138,7 @@ func replayCacheCase(c *cacheCase, idx int, srv *dohServer, z *cacheZone, clock 
 	z.ttls = map[string][][]int{"n1": c.Ttls, "n2": {{2}, {2}}}
 	z.up = true
 	z.failSrv = idx%2 == 0
-	z.failRc = []int{2, 9, 5, 23}[(idx/2)%4]
+	z.failRc = []int{2, 9, 5, 23, 256, 3843}[(idx/2)%6]
 	z.cnameOnly = idx%5 == 0
 	z.queries = nil
 	typ := z.typ
@@ -276,7 +276,7 @@ func TestCacheConcurrent(t *testing.T) {
 		srv := newDoHServer(z.answer)
 		clock.Store(0)
 		res, _ := ech.NewResolver(srv.url())
-		z.failRc = []int{2, 9}[r.Intn(2)]
+		z.failRc = []int{2, 9, 16, 256}[r.Intn(4)]
 		G := []int{2, 3, 4}[r.Intn(3)]
 		if os.Getenv("VH_BIGG") != "" {
 			G = 16 // race-detector-only rounds: too many unlogged interleavings for trace validation
